@@ -960,13 +960,24 @@ class SymInt(object):
 
     def __lshift__(self, o):
         if isinstance(o, int):
-            return self.__mul__(1 << o)
+            return self.__mul__(1 << o)      # carries the no-overflow obligation
         return NotImplemented
 
     def __and__(self, o):
         if self.bv:
+            if isinstance(o, int) and not isinstance(o, bool):
+                o &= (1 << self.bv) - 1      # Python ints are unbounded: a wider mask keeps every modelled bit
             return self._bin(o, lambda a, b: a & b)
         return NotImplemented
+
+    __rand__ = __and__
+
+    def __or__(self, o):
+        if self.bv:
+            return self._bin(o, lambda a, b: a | b)
+        return NotImplemented
+
+    __ror__ = __or__
 
     def __eq__(self, o):
         r = self._cmp(o, lambda a, b: a == b, lambda a, b: a == b)
